@@ -1129,12 +1129,28 @@ PROPS = {
 PROPS["C07"] = dict(claimed=False, na_reason="not applicable to solver-based checking here: the sorter's buffer (raw alloc + bytemuck casts + std sort) exceeds "
                     "20 GB of CBMC memory already for 2 inserts read back, and write_chunk/merge_chunks need the real writer->reader pipeline, which does not "
                     "terminate under CBMC (DESIGN.md §7); rayon scheduling is outside Kani. No partial claim is made.")
-PROPS["C08"] = dict(claimed=False, na_reason="not applicable: the one-step induction over Sorter::insert with symbolic buffer length/budget exceeded 20 GB even with "
-                    "the budget fixed and Entries::insert/write_chunk/merge_chunks replaced by counting models; only the builder clamps are decidable "
-                    "(kernel kept in kit/sorter_h.rs, 0.1 s) which is too little to claim the property; heap high-water marks are measurements, not solver questions.")
-PROPS["C17"] = dict(claimed=False, na_reason="not applicable: Entries/EntryBoundAlignedBuffer harnesses (alloc, doubling copy, casts, iteration) exceed 20 GB for two "
-                    "inserts; Kani does not model addresses (bytemuck alignment) nor leaks; what remains decidable (pointer/overflow checks ON in every harness of "
-                    "every other property, block-level borrow harness) is reported under those properties, not as a C17 claim.")
+PROPS["C08"] = dict(claimed=True, engine="mirsmt", design="§10",
+                    text="Induction over insert histories of any length, decided by SMT over the MIR of the real functions (64-bit bit-vectors): base = every Sorter "
+                         "the builder can produce (all budgets, both reallocation policies, all max_nb_chunks, every subset of setters) satisfies the invariant; "
+                         "step = one Sorter::insert (real MIR of insert, threshold_exceeded, Entries::fits/remaining/entry_size/insert/reallocate_buffer, "
+                         "EntryBoundAlignedBuffer::new/deref/deref_mut/drop) from EVERY state of the invariant with an entry footprint <= budget/4 re-establishes it, "
+                         "keeps the volume inserted since the last spill (== entries_len, itself proved) <= 2 x budget (<= budget when reallocation is off), "
+                         "spills only when the entry does not fit, grows the buffer only below the budget and only when allowed, and never has more than max + 2 chunks alive.",
+                    note="write_chunk / merge_chunks enter the step by their counter contracts (one create call, one chunk pushed, buffer cleared, merge leaves one chunk): their bodies "
+                         "(writer, merger, iterators) are not encoded, so 'every spill goes through the chunk creator' is claimed only up to those contracts. Budget <= 2^36 "
+                         "(quick) / 2^44 (thorough); process heap high-water marks are measurements and outside.")
+PROPS["C17"] = dict(claimed=True, engine="mirsmt", design="§10",
+                    text="Sorter buffer management only, decided by SMT over the MIR of the real functions: from EVERY state of the representation invariant (buffer length "
+                         "<= 2^60, multiple of 16, equal to the live allocation's size) and every key/value length, Entries::insert / fits / remaining / entry_size / "
+                         "reallocate_buffer and EntryBoundAlignedBuffer::new / deref / deref_mut / drop satisfy every obligation: no arithmetic overflow, every slice range inside "
+                         "its slice, equal copy lengths, cast sizes and alignment, from_raw_parts inside one live allocation, non-zero-size alloc, valid layouts, dealloc layout == "
+                         "alloc layout, no double free, no leak, bytes and bound table never overlap, the stored EntryBound describes the bytes just written; the invariant is re-established "
+                         "(so the claim covers insert sequences of any length, repeated doubling, exact fit and entries larger than the buffer).",
+                    note="NOT covered: the read paths that hand out borrowed keys/values (Entries::iter / sort_by_key closures, the lifetime-extending transmutes in block.rs, "
+                         "reader_cursor.rs, range_iter.rs and lib.rs) - aliasing/lifetime questions are not expressible in this integer/allocation-identity encoding; "
+                         "contents of the bytes; allocation failure. Kani's pointer and overflow checks stay on in every harness of the other properties.")
+TECH_MS = ("symbolic execution of the real code's MIR (rustc nightly -Zunpretty=mir, regenerated every run) into SMT: every overflow / range / allocation obligation and the "
+           "inductive post-conditions are discharged by z3 / cvc5 over all 64-bit values inside the stated bounds; counterexamples are re-executed concretely")
 NOT_YET = "check not built yet in this revision (work in progress; see DESIGN.md §5)"
 
 
@@ -1149,14 +1165,14 @@ def manifest():
             continue
         c = {
             "property_id": pid,
-            "quick_cmd": "./vk check %s --tier quick" % pid,
-            "thorough_cmd": "./vk check %s --tier thorough" % pid,
+            "quick_cmd": "./%s check %s --tier quick" % ("ms" if p.get("engine") == "mirsmt" else "vk", pid),
+            "thorough_cmd": "./%s check %s --tier thorough" % ("ms" if p.get("engine") == "mirsmt" else "vk", pid),
             "evidence_file": "/verif/evidence/%s.json" % pid,
             "replay_cmd_template": "cat {path}",
-            "engine": "kani",
+            "engine": p.get("engine", "kani"),
             "level_claimed": {"category": "model_checking", "text": p["text"], "design_ref": p["design"]},
             "level_note": p["note"],
-            "technique": TECH,
+            "technique": TECH_MS if p.get("engine") == "mirsmt" else TECH,
         }
         checks.append(c)
     return {
@@ -1170,8 +1186,11 @@ def manifest():
             "source_commits": [],
             "add_only": True,
         },
-        "engines": [{"name": "kani", "path": "/verif/vk", "serves_properties": [c["property_id"] for c in checks],
-                     "kind_free_text": "Kani 0.68 / CBMC 6.11 / CaDiCaL bounded model checking of grenad's compiled MIR through in-crate harness modules"}],
+        "engines": [{"name": "kani", "path": "/verif/vk", "serves_properties": [c["property_id"] for c in checks if c["engine"] == "kani"],
+                     "kind_free_text": "Kani 0.68 / CBMC 6.11 / CaDiCaL bounded model checking of grenad's compiled MIR through in-crate harness modules"},
+                    {"name": "mirsmt", "path": "/verif/ms", "serves_properties": [c["property_id"] for c in checks if c["engine"] == "mirsmt"],
+                     "kind_free_text": "symbolic execution of rustc's MIR dump of the sorter module (regenerated from /repo on every run) into 64-bit bit-vector SMT queries; "
+                                       "z3 5.1 with cvc5 1.0.3 (--solve-bv-as-int=sum) for the queries bit-blasting does not decide"}],
         "checks": checks,
         "not_applicable": na,
         "notes": "Exit codes of vk: 0 held, 1 VIOLATION (counterexample replayed natively), 2 inconclusive (resource-out / build failure / "
